@@ -22,6 +22,10 @@ Definition M := N.
 Record ctxv := CX { c_handler : N; c_pubname : N; c_subname : N; c_subtopic : N; c_pubtopic : N }.
 Definition cx0 : ctxv := CX 0 0 0 0 0.            (* a context without any router key *)
 
+(** everything ELSE a message context carries: user values (one interned tag stands for them) and
+    whether the context is cancelled.  The Router must hand it on untouched. *)
+Definition uctx := (N * bool)%type.
+
 (** ** configuration of one handler, as passed to AddHandler *)
 Inductive pubref :=
 | PReal (id : N) (ty : N)       (* a publisher object [id] whose internal.StructName is [ty] *)
@@ -48,32 +52,55 @@ Record started := ST { s_chain : list mwreg (* snapshot of r.middlewares, unfilt
                        s_pubdecs : list N; s_subdecs : list N }.
 Record hstate := HS { hs_cfg : hcfg; hs_started : option started }.
 
+(** [pfails]: decorator constructors that still return an error: (decorator id, how many more times);
+    [residue]: publisher decorators that a FAILED RunHandlers attempt left applied on a handler's
+    publisher (decorateHandlerPublisher assigns h.publisher before decorateHandlerSubscriber runs,
+    l.716), keyed by handler name, first = outermost *)
 Record rstate := RS { handlers : list hstate (* in AddHandler order *); mws : list mwreg;
-                      pubdecs : list N; subdecs : list N }.
-Definition rinit : rstate := RS [] [] [] [].
+                      pubdecs : list N; subdecs : list N;
+                      pfails : list (N * nat); residue : list (N * list N) }.
+Definition rinit : rstate := RS [] [] [] [] [] [].
 
 (** one message handed to the subscriber environment: every subscription made on subscriber object
     [d_sub] for topic [d_topic] receives its own copy; [d_ctx] = router keys the message context
-    carries already; [d_out] = what the handler function does with it; [d_pb] = how the handler's
-    real publisher answers *)
-Record delivery := DL { d_sub : N; d_topic : N; d_ctx : ctxv; d_out : outcome M; d_pb : pubbeh }.
+    carries already, [d_uctx] = its user value / cancellation; [d_out] = what the handler function
+    does with it; [d_pb] = how the handler's real publisher answers *)
+Record delivery := DL { d_sub : N; d_topic : N; d_ctx : ctxv; d_uctx : uctx; d_out : outcome M; d_pb : pubbeh }.
 
 Inductive op :=
 | OAddHandler (h : hcfg)
 | OAddMw (id : N) (app : option M)               (* Router.AddMiddleware *)
 | OAddHMw (name : N) (id : N) (app : option M)   (* Handler.AddMiddleware of handler [name] *)
-| OAddPubDec (d : N)
-| OAddSubDec (d : N)
+| OAddPubDec (d : N) (fails : nat)               (* a decorator whose constructor returns an error the first [fails] times it is called *)
+| OAddSubDec (d : N) (fails : nat)
 | OStart                                         (* Run, or RunHandlers on a running router *)
+| OStop (name : N)                               (* Handler.Stop of a started handler, until it is removed from r.handlers *)
 | ODeliver (d : delivery).
 
 Definition name_is (n : N) (hs : hstate) : bool := N.eqb (h_name (hs_cfg hs)) n.
 Definition find_handler (n : N) (st : rstate) : option hstate := find (name_is n) (handlers st).
 
+Definition budget (st : rstate) (d : N) : nat :=
+  match find (fun p => N.eqb (fst p) d) (pfails st) with Some p => snd p | None => 0 end.
+(** the first decorator, in the order the constructors are called, that still fails *)
+Definition first_failing (st : rstate) (order : list N) : option N :=
+  find (fun d => negb (Nat.eqb (budget st d) 0)) order.
+Definition spend (pf : list (N * nat)) (d : N) : list (N * nat) :=
+  map (fun p => if N.eqb (fst p) d then (fst p, pred (snd p)) else p) pf.
+Definition residue_of (st : rstate) (n : N) : list N :=
+  match find (fun p => N.eqb (fst p) n) (residue st) with Some p => snd p | None => [] end.
+Definition unstarted (hs : hstate) : bool := match hs_started hs with None => true | Some _ => false end.
+(** the handler RunHandlers processes first.  Go iterates r.handlers in map order; the model takes
+    registration order.  This matters only for WHICH handler keeps a residue when a subscriber
+    decorator fails while several handlers are waiting to be started (see checks/wiring.py ASSUMPTIONS). *)
+Definition first_unstarted (st : rstate) : option hstate := find unstarted (handlers st).
+Definition add_fail (pf : list (N * nat)) (d : N) (fails : nat) : list (N * nat) :=
+  match fails with O => pf | S _ => pf ++ [(d, fails)] end.
+
 Definition start_one (st : rstate) (hs : hstate) : hstate :=
   match hs_started hs with
   | Some _ => hs                                                    (* if h.started { continue } *)
-  | None => HS (hs_cfg hs) (Some (ST (mws st) (pubdecs st) (subdecs st)))
+  | None => HS (hs_cfg hs) (Some (ST (mws st) (pubdecs st ++ residue_of st (h_name (hs_cfg hs))) (subdecs st)))
   end.
 
 Definition step (st : rstate) (o : op) : rstate :=
@@ -81,19 +108,46 @@ Definition step (st : rstate) (o : op) : rstate :=
   | OAddHandler h =>
       match find_handler (h_name h) st with
       | Some _ => st                                                (* panic(DuplicateHandlerNameError), nothing changed *)
-      | None => RS (handlers st ++ [HS h None]) (mws st) (pubdecs st) (subdecs st)
+      | None => RS (handlers st ++ [HS h None]) (mws st) (pubdecs st) (subdecs st) (pfails st) (residue st)
       end
-  | OAddMw id app => RS (handlers st) (mws st ++ [MR true 0 id app]) (pubdecs st) (subdecs st)
-  | OAddHMw n id app => RS (handlers st) (mws st ++ [MR false n id app]) (pubdecs st) (subdecs st)
-  | OAddPubDec d => RS (handlers st) (mws st) (pubdecs st ++ [d]) (subdecs st)
-  | OAddSubDec d => RS (handlers st) (mws st) (pubdecs st) (subdecs st ++ [d])
-  | OStart => RS (map (start_one st) (handlers st)) (mws st) (pubdecs st) (subdecs st)
+  | OAddMw id app => RS (handlers st) (mws st ++ [MR true 0 id app]) (pubdecs st) (subdecs st) (pfails st) (residue st)
+  | OAddHMw n id app => RS (handlers st) (mws st ++ [MR false n id app]) (pubdecs st) (subdecs st) (pfails st) (residue st)
+  | OAddPubDec d f => RS (handlers st) (mws st) (pubdecs st ++ [d]) (subdecs st) (add_fail (pfails st) d f) (residue st)
+  | OAddSubDec d f => RS (handlers st) (mws st) (pubdecs st) (subdecs st ++ [d]) (add_fail (pfails st) d f) (residue st)
+  | OStart =>
+      match first_unstarted st with
+      | None => st                                                  (* nothing to start: no decorator is called *)
+      | Some hs0 =>
+          (* decorateHandlerPublisher of the first handler: constructors called last-added first *)
+          match first_failing st (rev (pubdecs st)) with
+          | Some d => RS (handlers st) (mws st) (pubdecs st) (subdecs st) (spend (pfails st) d) (residue st)
+          | None =>
+              (* its publisher IS decorated now; decorateHandlerSubscriber: constructors in the order added *)
+              match first_failing st (subdecs st) with
+              | Some d =>
+                  let n0 := h_name (hs_cfg hs0) in
+                  RS (handlers st) (mws st) (pubdecs st) (subdecs st) (spend (pfails st) d)
+                     ((n0, pubdecs st ++ residue_of st n0) :: residue st)
+              | None =>
+                  (* no constructor fails any more: every waiting handler is decorated, subscribed and started *)
+                  RS (map (start_one st) (handlers st)) (mws st) (pubdecs st) (subdecs st) (pfails st) []
+              end
+          end
+      end
+  | OStop n =>
+      match find_handler n st with
+      | Some (HS _ (Some _)) =>
+          (* its run loop ends, delete(r.handlers, name): the name is free again; what was registered
+             for that NAME in r.middlewares stays *)
+          RS (filter (fun hs => negb (name_is n hs)) (handlers st)) (mws st) (pubdecs st) (subdecs st) (pfails st) (residue st)
+      | _ => st                                                     (* panic("handler is not started") / no such handler *)
+      end
   | ODeliver _ => st
   end.
 Definition exec (st : rstate) (ops : list op) : rstate := fold_left step ops st.
 
 (** ** observable events of one message copy in one handler, in order *)
-Definition omsg := (M * ctxv)%type.
+Definition omsg := (M * ctxv * uctx)%type.
 Inductive ev :=
 | ESubDec (d : N) (seen : ctxv)                    (* subscriber decorator d passes the incoming message on *)
 | EEnter (w : N)                                   (* middleware w entered *)
@@ -165,23 +219,29 @@ Definition base_pub (h : hcfg) (pb : pubbeh) : pfun :=
   | PNil => fun _ _ => ([], None)                     (* a decorator calls Publish on a nil interface *)
   end.
 Definition pdec_sem (d : N) (p : pfun) : pfun :=
-  fun t outs => let '(tr, r) := p t outs in (EPubDec d t (map fst outs) :: tr, r).
+  fun t outs => let '(tr, r) := p t outs in (EPubDec d t (map (fun o => fst (fst o)) outs) :: tr, r).
 (** decorateHandlerPublisher: for i := len-1 .. 0 { pub = decs[i](pub) } *)
 Definition decorate_pub (decs : list N) (p : pfun) : pfun := fold_right pdec_sem p decs.
 
 Definition out_ctx (h : hcfg) (cin : ctxv) (m : M) : ctxv :=
   overlay (if N.eqb m 0 then cin else cx0) h.
+(** the context a produced message was given by whoever produced it (harness convention, see
+    Corr/C08.v): the consumed object keeps the arriving one; message m carries the user value m and
+    is cancelled iff m is even.  addHandlerContext derives each message's new context from ITS OWN
+    (context.WithValue(msg.Context(), ...)), so this part is untouched. *)
+Definition own_ctx (d : delivery) (m : M) : uctx :=
+  if N.eqb m 0 then d_uctx d else (m, N.even m).
 
 (** publishProducedMessages *)
-Definition publish_outs (h : hcfg) (s : started) (pb : pubbeh) (cin : ctxv) (outs : list M)
+Definition publish_outs (h : hcfg) (s : started) (d : delivery) (cin : ctxv) (outs : list M)
   : list ev * option bool :=
   match outs with
   | [] => ([], Some true)
   | _ =>
       match h_pub h, s_pubdecs s with
       | PNil, [] => ([], Some false)                   (* h.publisher == nil *)
-      | _, decs => decorate_pub decs (base_pub h pb) (h_pubtopic h)
-                                (map (fun m => (m, out_ctx h cin m)) outs)
+      | _, decs => decorate_pub decs (base_pub h (d_pb d)) (h_pubtopic h)
+                                (map (fun m => (m, out_ctx h cin m, own_ctx d m)) outs)
       end
   end.
 
@@ -192,7 +252,7 @@ Definition dispatch (h : hcfg) (s : started) (d : delivery) : list ev :=
   let '(tch, oc) := build (s_chain s) (h_name h) fn cin in
   match oc with
   | Ret outs =>
-      let '(tp, r) := publish_outs h s (d_pb d) cin outs in
+      let '(tp, r) := publish_outs h s d cin outs in
       tin ++ tch ++ tp ++ [ESettle match r with Some true => true | _ => false end]
   | _ => tin ++ tch ++ [ESettle false]
   end.
